@@ -4,6 +4,7 @@ go 1.23
 
 require (
 	github.com/bytom/bytom v0.0.0
+	github.com/golang/protobuf v1.4.3
 	github.com/pborman/uuid v1.2.1
 	github.com/sirupsen/logrus v1.8.1
 	github.com/tendermint/go-wire v0.16.0
@@ -16,7 +17,6 @@ require (
 	github.com/go-kit/kit v0.10.0 // indirect
 	github.com/go-logfmt/logfmt v0.5.0 // indirect
 	github.com/golang/groupcache v0.0.0-20210331224755-41bb18bfe9da // indirect
-	github.com/golang/protobuf v1.4.3 // indirect
 	github.com/golang/snappy v0.0.3 // indirect
 	github.com/google/uuid v1.2.0 // indirect
 	github.com/grandcat/zeroconf v0.0.0-20190424104450-85eadb44205c // indirect
